@@ -116,6 +116,7 @@ Definition cid := nat.
 
 Inductive dty :=
 | DPrim (k : lkind)
+| DPrimE (k : lkind)      (* the primitive customized with empty_is_none=True *)
 | DRef (c : cid)
 | DArr (e : dty).         (* Array(e): a wrapper class whose only member is unbounded *)
 
@@ -597,7 +598,7 @@ Section Struct.
     match poly_target t v with
     | DArr e => rec true e v
     | DRef d => complex_to_doc rec d v
-    | DPrim kd => leaf_enc c kd v
+    | DPrim kd | DPrimE kd => leaf_enc c kd v      (* empty_is_none does not act in the writer *)
     end.
 
   (** _object_to_doc: the class is [t], with max_occurs > 1 iff [multi].  One unit of
@@ -721,6 +722,17 @@ Section Struct.
   Definition fdv_with (rec : dty -> jv -> out dval) (nillable : bool) (t : dty) (j : jv) : out dval :=
     match t with
     | DPrim kd => ldec nillable kd j
+    | DPrimE kd =>
+        (* `if cls_attrs.empty_is_none and inst in (u'', b''): inst = None` ([ein_empty_str] /
+           [ein_empty_bytes] are generated from the members of that tuple): the empty text and the empty byte string,
+           nothing else (0, 0.0, False, [] stay what they are), are read as null.  The
+           statement comes after self.validate() and the source guards, which every text
+           passes, and what follows it sees None exactly as for a null node *)
+        ldec nillable kd (if (match j with
+                              | JStr [] => ein_empty_str
+                              | JBytes [] => ein_empty_bytes
+                              | _ => false
+                              end) then JNull else j)
     | _ =>
         (* a null member is None (repaired); validate_native: nullable or value is not None *)
         do r <- (match j with
@@ -739,7 +751,7 @@ Section Struct.
         | JNull => Ok (DList [])
         | _ =>
             match t with
-            | DPrim _ => Crash TypeError
+            | DPrim _ | DPrimE _ => Crash TypeError
             | DArr e =>
                 match iter_doc doc with
                 | None => VFault
